@@ -326,3 +326,65 @@ Theorem C06_heap_links_point_back : forall f h p r t ids e, Heap.walk f h p r = 
     forall k w, In (k, w) (Heap.c_children ce ++ Heap.opt_list (Heap.c_input ce) ++ Heap.opt_list (Heap.c_output ce)) ->
     exists cw, Heap.get h w = Some cw /\ Heap.c_parent cw = Some e.
 Proof. exact HeapProofs.walk_links_parent. Qed.
+From GY Require Proofs.HeapFixProofs.
+
+(* FixChoice at pointer level (Model/Heap.v: wrap_cases / fix_choice / fix_top; spec on plain trees: HeapFixProofs.fix_tree).
+   On a well-formed tree fix_top, with the fuel the harness uses, succeeds; the result is a well-formed tree from the same
+   root; erased it is fix_tree of the erased source (every non-case child of an error-free choice wrapped exactly once
+   into a case of its name and namespace, everywhere, rpc input and output included); the cells reachable afterwards are
+   exactly the old ones plus ALL cells the run allocated: every inserted case is fresh and linked into the tree, hence
+   (wf_tree, C06_heap_links_point_back) its Parent is its choice and its member's Parent is the case *)
+Theorem C06_heap_fix_top_wf_erase : forall h r, HeapProofs.wf_tree h r ->
+  exists h' t ids ids',
+    Heap.fix_top h r = Some h' /\ HeapProofs.wf_tree h' r /\
+    Heap.erase (length h) h r = Some t /\ Heap.erase (length h') h' r = Some (HeapFixProofs.fix_tree t) /\
+    Heap.reach (length h) h r = Some ids /\ Heap.reach (length h') h' r = Some ids' /\
+    (forall y, In y ids' <-> In y ids \/ length h <= y < length h') /\ length h <= length h'.
+Proof. exact HeapFixProofs.fix_top_wf_erase. Qed.
+
+(* frame, PARTIAL: cells allocated before that are not in the tree are unchanged; for cells in the tree the theorem above
+   pins every field through erase, but "a member changes in Parent only, a choice in its child list only" is not stated
+   cell by cell *)
+Theorem C06_heap_fix_top_frame_partial : forall h r h' ids,
+  HeapProofs.wf_tree h r -> Heap.fix_top h r = Some h' -> Heap.reach (length h) h r = Some ids ->
+  forall y, y < length h -> ~ In y ids -> Heap.get h' y = Heap.get h y.
+Proof. exact HeapFixProofs.fix_top_frame_partial. Qed.
+
+(* the cells made at one choice (wrap_cases, the allocation step of fix_choice): every cell it allocates is a case whose
+   Parent is the choice, named and stamped like one member m of the child list, with m as its ONLY child and no
+   input/output; m is not a case and m's Parent is now that case; old cells other than the members are unchanged.
+   (PARTIAL with respect to fix_top: stated for one choice level; that every cell allocated by the whole recursive run
+   is one of these follows from the code of fix_choice -- wrap_cases is its only allocation -- but is not a theorem) *)
+Theorem C06_heap_fix_wrap_cells_partial : forall l h e hw dir,
+  Heap.wrap_cases h e l = (hw, dir) -> NoDup (map snd l) -> Forall (fun kv => snd kv < length h) l ->
+  length h <= length hw /\
+  (forall y, y < length h -> ~ In y (map snd l) -> Heap.get hw y = Heap.get h y) /\
+  (forall y, length h <= y < length hw -> exists nm ns m cm,
+     In m (map snd l) /\
+     Heap.get hw y = Some (Heap.mkCell (Some e) nm Heap.K_CASE [(nm, m)] None None None None ns 0) /\
+     Heap.get hw m = Some cm /\ Heap.c_parent cm = Some y /\ Heap.c_name cm = nm /\ Heap.c_ns cm = ns /\
+     Heap.c_kind cm <> Heap.K_CASE).
+Proof. exact HeapFixProofs.wrap_cases_cells. Qed.
+
+(* the plain-tree spec: what fix_tree does at one node *)
+Theorem C06_heap_fix_tree_eq : forall nm k la ty ns errs ks ti to,
+  HeapFixProofs.fix_tree (Heap.TNode nm k la ty ns errs ks ti to) =
+  Heap.TNode nm k la ty ns errs
+    (if HeapFixProofs.wraps k errs then map HeapFixProofs.wrapkid ks else map HeapFixProofs.fixkid ks)
+    (map HeapFixProofs.fixkid ti) (map HeapFixProofs.fixkid to).
+Proof. exact HeapFixProofs.fix_tree_eq. Qed.
+
+(* idempotence on the erased level, and of a second run *)
+Theorem C06_heap_fix_tree_idem : forall t, HeapFixProofs.fix_tree (HeapFixProofs.fix_tree t) = HeapFixProofs.fix_tree t.
+Proof. exact HeapFixProofs.fix_tree_idem. Qed.
+
+Theorem C06_heap_fix_top_twice : forall h r h1, HeapProofs.wf_tree h r -> Heap.fix_top h r = Some h1 ->
+  exists h2, Heap.fix_top h1 r = Some h2 /\ HeapProofs.wf_tree h2 r /\
+    Heap.erase (length h2) h2 r = Heap.erase (length h1) h1 r.
+Proof. exact HeapFixProofs.fix_top_twice. Qed.
+
+(* non-vacuity: choice { leaf a; container c { choice n { leaf b } }; case x { leaf y } } is a well-formed tree
+   (HeapFixProofs.exf_fix runs fix_top on it: three fresh cases 7, 8, 9; x kept; second run = identity) *)
+Example C06_heap_fix_ex_wf : HeapProofs.wf_tree HeapFixProofs.exf_heap 0.
+Proof. exact HeapFixProofs.exf_wf. Qed.
+
